@@ -177,11 +177,11 @@ def bind(chk: Check, tier: str, seed: int):
     M = messages()
     recs, meta = [], []
     combos = [["multi", "multi2"], ["multi", "single"], ["single", "multi", "single2"], ["multi", "multi2", "single"], ["single", "single2"]]
-    masks = ["none", "all", "alt"] + [tuple(rng.random() < 0.5 for _ in range(16)) for _ in range({"quick": 5, "thorough": 30, "selftest": 2}[tier])]
+    masks = ["none", "all", "alt"] + [tuple(rng.random() < 0.5 for _ in range(16)) for _ in range({"quick": 5, "thorough": 200, "selftest": 2}[tier])]
     for kind in ("ebyte", "yd", "waveshare"):
         for names in combos:
             for mask in masks:
-                for stagger in (0, 1, 2):
+                for stagger in ((0, 1, 2) if tier != "thorough" else (0, 1, 2, 3, 5, 8)):
                     plan = SendPlan(drain_mask=() if mask == "none" else mask)
                     r, order = session(kind, names, stagger, plan, [], M)
                     recs.append(r)
